@@ -19,9 +19,10 @@ from tracecheck import TraceChecker
 from vlib import InfraError
 
 BATCH = 5000        # behaviours per harness run / trace file
+BATCH_B = 150       # seeded conversations per harness run / trace file
 TIERS = {
     "quick": dict(executions=120, sim_num=300, sim_max=3000, sim_depth=40, tlc_timeout=900, mc_cfg="MCRtrSocket.cfg", conv_cfg="MCRtrSocketConv.cfg"),
-    "thorough": dict(executions=2500, sim_num=4000, sim_max=40000, sim_depth=60, tlc_timeout=3400, mc_cfg="MCRtrSocket_big.cfg", conv_cfg="MCRtrSocketConv_big.cfg"),
+    "thorough": dict(executions=1500, sim_num=4000, sim_max=40000, sim_depth=60, tlc_timeout=3400, mc_cfg="MCRtrSocket_big.cfg", conv_cfg="MCRtrSocketConv_big.cfg"),
 }
 RELEVANT = {
     "C04": lambda e: e["e"] in ("recv", "rfault", "hang"),
@@ -279,27 +280,39 @@ def run(ctx):
                             generator="tlc MCRtrSocketCover.cfg: shortest behaviour (TLCExt!Trace) to every class of transition (abstract client state x event class)")
 
     # ---- B: seeded conversations with every misbehaviour class
-    scriptB = os.path.join(wd, "scriptB.ndjson")
-    nB = fsmgen.write_script(scriptB, seed, P["executions"])
-    traceB, outB = harness(scriptB, "B", {"mode": "script", "script": scriptB, "seed": seed})
+    # (in batches of BATCH_B conversations, each batch with its own seed; the quick tier is one batch)
+    nB, evs, kinds, ubsan, msan_runs = 0, [], {}, 0, []
+    for bi in range(0, P["executions"], BATCH_B):
+        nex = min(BATCH_B, P["executions"] - bi)
+        bseed = seed if bi == 0 else seed * 100003 + bi
+        tagB = "B" if bi == 0 else "B%d" % (bi // BATCH_B)
+        scriptB = os.path.join(wd, "script%s.ndjson" % tagB)
+        nB += fsmgen.write_script(scriptB, bseed, nex)
+        traceB, outB = harness(scriptB, tagB, {"mode": "script", "script": scriptB, "seed": bseed})
+        ubsan += outB.count("runtime error:")
+        if pid == "C14":
+            # instrument of the binding step: the same conversations in a MemorySanitizer build; the harness
+            # asks MSan about every byte handed to the transport send function
+            exe_m = build(pid + "-msan", "msan")
+            rc_m, out_m = vlib.sh([exe_m, scriptB, os.path.join(wd, "traceB-msan.ndjson")], env=dict(vlib.SAN_ENV, VH_ALARM="900"), timeout=1000)
+            msan_runs.append({"exit": rc_m, "script": os.path.basename(scriptB)})
+            if rc_m != 0:
+                mpath = os.path.join(wd, "meta.json")
+                json.dump({"mode": "script", "script": scriptB, "seed": bseed, "flavour": "msan"}, open(mpath, "w"))
+                rp = vlib.save_replay(pid, "%s-msan-seed%d" % (tagB, seed), [mpath, scriptB])
+                verdict.deviation("C14:uninitialised-byte-sent" if rc_m == 97 else "C14:msan-abort",
+                                  "MemorySanitizer build: %s" % out_m[-600:], rp)
+        bevs = vlib.read_ndjson(traceB, limit=400000) if traceB else []
+        for e in bevs:
+            kinds[e["e"]] = kinds.get(e["e"], 0) + 1
+        if bi == 0:
+            evs = bevs
+        if traceB and bi > 0:
+            os.remove(traceB)          # later batches are kept only when they become replays
     if pid == "C14":
-        # instrument of the binding step: the same conversations in a MemorySanitizer build; the harness
-        # asks MSan about every byte handed to the transport send function
-        exe_m = build(pid + "-msan", "msan")
-        rc_m, out_m = vlib.sh([exe_m, scriptB, os.path.join(wd, "traceB-msan.ndjson")], env=dict(vlib.SAN_ENV, VH_ALARM="900"), timeout=1000)
-        cov["msan_pass"] = {"exit": rc_m, "script": "scriptB.ndjson"}
-        if rc_m != 0:
-            mpath = os.path.join(wd, "meta.json")
-            json.dump({"mode": "script", "script": scriptB, "seed": seed, "flavour": "msan"}, open(mpath, "w"))
-            rp = vlib.save_replay(pid, "B-msan-seed%d" % seed, [mpath, scriptB])
-            verdict.deviation("C14:uninitialised-byte-sent" if rc_m == 97 else "C14:msan-abort",
-                              "MemorySanitizer build: %s" % out_m[-600:], rp)
-    evs = vlib.read_ndjson(traceB) if traceB else []
-    kinds = {}
-    for e in evs:
-        kinds[e["e"]] = kinds.get(e["e"], 0) + 1
-    cov["binding_B"] = {"executions": P["executions"], "script_lines": nB, "events": len(evs), "by_kind": kinds,
-                        "ubsan_reports_diagnostic": outB.count("runtime error:")}
+        cov["msan_pass"] = msan_runs
+    cov["binding_B"] = {"executions": P["executions"], "script_lines": nB, "events": sum(kinds.values()), "by_kind": kinds,
+                        "ubsan_reports_diagnostic": ubsan}
     ta0 = os.path.join(wd, "traceA0.ndjson")
     allev = evs + (vlib.read_ndjson(ta0, limit=400000) if os.path.exists(ta0) else [])
     rel = [e for e in allev if RELEVANT[pid](e)]
